@@ -24,6 +24,8 @@ type Scenario struct {
 	Note   string  `json:"note,omitempty"`
 	// Store is a backend-level operation sequence (C14); Steps is empty then.
 	Store *StoreCase `json:"store,omitempty"`
+	// Case carries property-specific case data for checks that do not run request histories.
+	Case json.RawMessage `json:"case,omitempty"`
 	// Twin is a second scenario that must behave identically (metamorphic checks, C12).
 	Twin *Scenario `json:"twin,omitempty"`
 }
